@@ -721,6 +721,9 @@ class CxxParser:
 
                         mods.validate(var_ok=False, meth_ok=False, msg="")
                         dtype = self._parse_cv_ptr_or_fn(parsed_type, nonptr_fn=True)
+                        atok = self.lex.token_if("[")
+                        if atok:
+                            dtype = self._parse_array_type(atok, dtype)
                         self._next_token_must_be(PhonyEnding.type)
                     except CxxParseError:
                         dtype = None
@@ -2256,7 +2259,7 @@ class CxxParser:
                 if not isinstance(dtype, (Pointer, Type)):
                     raise self._parse_error(tok)
                 dtype.volatile = True
-            elif nonptr_fn:
+            elif nonptr_fn and not self.lex.token_peek_if("*", "&", "DBL_AMP"):
                 # remove any inner grouping parens
                 while True:
                     gtok = self.lex.token_if("(")
